@@ -51,6 +51,7 @@ func main() {
 	first = append(first, singleScenarios(boundMs(f), f.Thorough())...)
 	first = append(first, listenScenarios(boundMs(f), f.Thorough())...)
 	first = append(first, pipeScenarios(f)...)
+	first = append(first, mergeScenarios(f.N(5, 7))...)
 	outs := runAll(f, first, f.N(4, 8))
 	points := map[string]int{}
 	for i, o := range outs {
@@ -99,10 +100,12 @@ func newAgg(res *lib.Result) *agg {
 	a.ties[tieSched] = res.Tie(tieSched, "K4", tieSchedRule)
 	a.ties[tiePipe] = res.Tie(tiePipe, "K4", tiePipeRule)
 	a.ties[tieLate] = res.Tie(tieLate, "K4", tieLateRule)
+	a.ties[tieMerge] = res.Tie(tieMerge, "K2", tieMergeRule)
+	a.ties[tieMerge].Exhaustive = true
 	a.mons[monShutdown] = res.Monitor(monShutdown,
 		"real pkg/resource + minibus under scenarios (0-8 subscribers, backpressure on/off, updates-only, PullID; consumers drain / stop after k / never receive; cancel before subscribe, at the n-th occurrence of every yield point, at random instants, at the end; 0-3 writers): after the cancel the consumer sees close within the bound; writers return once every non-receiving subscriber is cancelled; a write issued after a subscription ended returns; PullID closes after its item is removed - with backpressure after the first removal, without once the item is gone for good - also for a consumer that stayed away while the item was deleted / re-added / deleted behind it and came back without cancelling, and on collections built WithNoDuplicates / WithMessageEquivalence / WithEquivalence (items of two message types, the empty message included; read masks that select the payload or only a never-set field) (collections with an id interceptor lower/upper/trim: subscriber and writers spell the ids differently, the oracle keys everything by the intercepted id); trait-level subscriptions (Pull adapters of 10 trait models; the ModelServer gRPC Pull handlers of the same 10 traits on a stream whose Send starts failing at message 1, 2 or 3, or never): drain or stop receiving, writes, then cancel, also with an already-cancelled context; the goroutine census (runtime.Stack filtered to pkg/resource + internal/minibus + pkg/trait/* frames) returns to empty; no panic (recovered or process-killing). non-trivial = at least one subscriber; distinct = distinct check x subscription class x consumer/cancel mode")
 	a.mons[monDelivery] = res.Monitor(monDelivery,
-		"oracle: per-writer list of the writes that succeeded. Bus level (free-running, no yield points): rounds with 300-12000 already-cancelled listeners so that the next Send collects, 4-12 goroutines subscribing while 1-2 Sends run, then a sentinel Send: every listener whose Listen returned before the sentinel Send began must receive it exactly once. Resource level: a backpressure subscriber subscribed before the writers start, receiving throughout and not cancelled until they finished must receive each writer's events exactly once in that writer's order; every other subscriber must see strictly increasing sequence numbers per writer (no duplicate, no reordering); net effect: what a receiving, uncancelled Collection.Pull subscriber (with or without backpressure) has received adds up, once the writers are done, to the items that exist (a removal or re-creation of an item it was shown is never lost, whatever the lossy stage merged); a subscriber whose read mask hides the payload is judged by item and change type. non-trivial = at least one event expected/received")
+		"oracle: per-writer list of the writes that succeeded. Bus level (free-running, no yield points): rounds with 300-12000 already-cancelled listeners so that the next Send collects, 4-12 goroutines subscribing while 1-2 Sends run, then a sentinel Send: every listener whose Listen returned before the sentinel Send began must receive it exactly once. Resource level: a backpressure subscriber subscribed before the writers start, receiving throughout and not cancelled until they finished must receive each writer's events exactly once in that writer's order; every other subscriber must see strictly increasing sequence numbers per writer (no duplicate, no reordering); net effect: mergeChanges folded over every valid sequence of 1-5 change types of one item from both start states (a receiver's view of the item as one bool: the held change is applicable and leads to the item's state, nothing held = up to date, newest value carried); what a receiving, uncancelled Collection.Pull subscriber (with or without backpressure) has received adds up, once the writers are done, to the items that exist (a removal or re-creation of an item it was shown is never lost, whatever the lossy stage merged); a subscriber whose read mask hides the payload is judged by item and change type. non-trivial = at least one event expected/received")
 	return a
 }
 
@@ -137,6 +140,9 @@ func (a *agg) add(sc Scenario, o Outcome) {
 		} else if strings.HasPrefix(k, "late:") {
 			dst = a.ties[tieLate].Distribution
 			k = strings.TrimPrefix(k, "late:")
+		} else if strings.HasPrefix(k, "merge:") {
+			dst = a.ties[tieMerge].Distribution
+			k = strings.TrimPrefix(k, "merge:")
 		}
 		dst[k] += n
 	}
@@ -183,6 +189,13 @@ func worker(f lib.Flags) {
 				}
 				if drv != nil && pipeBroken < 3 {
 					o = runPipe(req.Sc, drv)
+					if settleTimedOut(o) {
+						// "not quiescent within the bound" is a wall-clock verdict: confirm it on a fresh instance before it
+						// counts (a real hang reproduces: the schedule is scripted; a starved poller on a loaded machine does not)
+						waitBaseline(time.Duration(req.Sc.BoundMs) * time.Millisecond)
+						o = runPipe(req.Sc, drv)
+						o.count("pipe:settle-timeout-rechecked")
+					}
 					for _, t := range o.Ties {
 						if t.Err != "" || t.Model != t.Code {
 							pipeBroken++
@@ -201,6 +214,11 @@ func worker(f lib.Flags) {
 				}
 				if drv != nil && tieBroken < 3 {
 					o = runSched(req.Sc, drv)
+					if settleTimedOut(o) {
+						waitBaseline(time.Duration(req.Sc.BoundMs) * time.Millisecond)
+						o = runSched(req.Sc, drv)
+						o.count("tie:settle-timeout-rechecked")
+					}
 					for _, t := range o.Ties {
 						if t.Err != "" || t.Model != t.Code {
 							tieBroken++
@@ -211,6 +229,17 @@ func worker(f lib.Flags) {
 					// (each disagreement can cost a full quiescence bound); the monitors keep running
 					o.count("tie:skipped-after-3-disagreements")
 				}
+			case "merge":
+				if drv == nil {
+					d, derr := lib.StartDriver(f.Driver)
+					if derr != nil {
+						o.Ties = append(o.Ties, TieRec{Tie: tieMerge, Err: "driver: " + derr.Error()})
+					}
+					drv = d
+				}
+				o2 := runMerge(req.Sc, drv)
+				o2.Ties = append(o.Ties, o2.Ties...)
+				o = o2
 			case "race":
 				o = runRace(req.Sc)
 			case "adapter":
@@ -244,6 +273,27 @@ func worker(f lib.Flags) {
 			return
 		}
 	}
+}
+
+// settleTimedOut: the only thing wrong with the outcome is a tie record saying the real code did not come to rest
+// within the wall-clock bound
+func settleTimedOut(o Outcome) bool {
+	if len(o.Viols) > 0 {
+		return false
+	}
+	timedOut := false
+	for _, t := range o.Ties {
+		if t.Err != "" {
+			return false
+		}
+		if t.Model != t.Code {
+			if t.Model != "a quiescent state" {
+				return false
+			}
+			timedOut = true
+		}
+	}
+	return timedOut
 }
 
 var stopEarly, skipped atomic.Int64
@@ -371,7 +421,7 @@ func replay(f lib.Flags) int {
 	}
 	b, _ := json.Marshal(rp.Input)
 	var sc Scenario
-	if rp.Input == nil || json.Unmarshal(b, &sc) != nil || sc.Res == "" && sc.Sched == nil && sc.Race == nil && sc.Pipe == nil && sc.Adapter == nil && sc.Single == nil {
+	if rp.Input == nil || json.Unmarshal(b, &sc) != nil || sc.Res == "" && sc.Sched == nil && sc.Race == nil && sc.Pipe == nil && sc.Adapter == nil && sc.Single == nil && sc.Merge == nil {
 		fmt.Println("replay: no concrete input in file (", rp.Kind, rp.Broken, ")")
 		return 2
 	}
